@@ -134,7 +134,7 @@ Task *sim_cur(void);
 enum {
 	PR_SHORT_READ, PR_SHORT_WRITE, PR_EAGAIN_MID, PR_EAGAIN_BOUNDARY, PR_SEND_BLOCKED,
 	PR_HDR_SPLIT, PR_REC_MAX, PR_CLOCK_JUMP_HS, PR_TLS13_PAD, PR_QUIESCED,
-	PR_FAULT_FIRED, PR_ONE_BYTE_SEG, PR_COALESCED, PR_EBURST, PR_NPROBES
+	PR_FAULT_FIRED, PR_ONE_BYTE_SEG, PR_COALESCED, PR_EBURST, PR_EPH_VALIDATED, PR_TLS13_SCHEDULE, PR_NPROBES
 };
 extern const char *g_probe_names[];
 
